@@ -29,6 +29,10 @@ def blend_polynomial(facts, mod, fname):
             ys[i] = sp.Symbol("y%d" % i)
             v = v.subs(f, ys[i])
     x = alg.sym(xname)
+    if sorted(ys) != list(range(len(ys))):
+        # `yvals[8]` in an eight-point kernel: the caller hands over exactly n samples (R-C08-window), an index outside 0..n-1 panics
+        raise ir.AnchorMissing("%s::%s reads samples %s of its window: must be exactly 0..%d (an index outside the window panics; a skipped one is a wrong table)"
+                               % (mod, fname, sorted(ys), len(ys) - 1))
     return sp.expand(v), [ys[i] for i in sorted(ys)], x, fn
 
 
